@@ -154,7 +154,7 @@ func deliverDrv(sess *Session, phase int, key int) (errc int, detail string) {
 func guarded(sess *Session, phase, key int, drv bool) (int, string) {
 	var ec int
 	var det string
-	class, d := hutil.Guard(20*time.Second, func() error {
+	class, d := hutil.Guard(120*time.Second, func() error {
 		if drv {
 			ec, det = deliverDrv(sess, phase, key)
 		} else {
@@ -257,7 +257,7 @@ func runRace(st *Store, sid *int, key int, r *Race) ([]Obs, string) {
 				} else {
 					parked[e.tid] = &ev
 				}
-			case <-time.After(20 * time.Second):
+			case <-time.After(120 * time.Second):
 				return false
 			}
 		}
